@@ -212,7 +212,12 @@ class _WorkerProcess:
 
     def close(self):
         import os
+        import signal
         self._close_fds()
+        try:                     # (other forked processes may hold copies of the pipe ends)
+            os.kill(self.pid, signal.SIGKILL)
+        except OSError:
+            pass
         try:
             os.waitpid(self.pid, 0)
         except OSError:
